@@ -26,7 +26,7 @@ def cases(seed, tier):
         out += [c for c in c9[250:] if c.get('kind') in ('S', 'D')][:60]      # the deterministic families (scratch-name siblings, moved targets)
     out += c10.cases(seed + 1, tier)[: (150 if tier == 'quick' else 10 ** 9)]
     out += c11.cases(seed + 1, tier)[: (200 if tier == 'quick' else 10 ** 9)]
-    out += c07.cases(seed + 1, tier)[: (15 if tier == 'quick' else 10 ** 9)]
+    out += [c for c in c07.cases(seed + 1, tier) if 'steps' in c][: (15 if tier == 'quick' else 10 ** 9)]
     for c in out:
         c['program'] = rng.choice(['emdfile', 'py4DSTEM', 'my prog é', ''])
         c['user'] = rng.choice(['', 'ben', 'A. User', 'ü'])
